@@ -17,7 +17,6 @@ import time
 from props import tlc_replay, tlc_check, cfg_text, VERIF
 
 KNOWN = os.path.join(VERIF, "known_findings.json")
-TRACE = "c11.ndjson"
 
 APPEND_CONSTS = {"GNames": "<- UNames", "GRefsOf": "<- URefsOf", "GDeclares": "<- UDeclares", "GRoots": "<- URoots",
                  "GExtras": "<- UExtras"}
@@ -53,15 +52,20 @@ def stage_c11_trace(run, st):
     Infra, tlc_cmd, parse_tlc_log, ENV, log = drv.Infra, drv.tlc_cmd, drv.parse_tlc_log, drv.ENV, drv.log
     d = run.specdir()
     name = st["cfg"]
-    trace = os.path.join(run.scratch, TRACE)
-    if not os.path.exists(trace):
-        raise Infra("trace file %s missing" % trace)
-    lines = open(trace).read().splitlines()
-    evs = [l for l in lines if l.startswith('{"t":"ev"')]
-    if len(evs) < 3 or json.loads(lines[-1]).get("t") != "end":
-        raise Infra("trace %s is empty or truncated (%d lines)" % (trace, len(lines)))
-    if json.loads(lines[-1])["n"] != len(evs):
-        raise Infra("trace %s: end line counts %s events, file has %d" % (trace, lines[-1], len(evs)))
+    evs = []
+    for tf in st["trace_files"]:
+        trace = os.path.join(run.scratch, tf)
+        if not os.path.exists(trace):
+            raise Infra("trace file %s missing" % trace)
+        lines = open(trace).read().splitlines()
+        part = [l for l in lines if l.startswith('{"t":"ev"')]
+        if len(part) < 3 or json.loads(lines[-1]).get("t") != "end":
+            raise Infra("trace %s is empty or truncated (%d lines)" % (trace, len(lines)))
+        if json.loads(lines[-1])["n"] != len(part):
+            raise Infra("trace %s: end line counts %s events, file has %d" % (trace, lines[-1], len(part)))
+        evs += part
+    trace = os.path.join(run.scratch, name + ".all.ndjson")
+    open(trace, "w").write("\n".join(evs) + '\n{"t":"end","n":%d}\n' % len(evs))
     listed = listed_devs()
     consts = dict(DUMMY_CONSTS, Listed="{%s}" % ", ".join('"%s"' % x for x in listed))
     cfg = cfg_text(spec="TraceSpec", constants=consts, postcondition="TraceAccepted")
@@ -149,7 +153,7 @@ def gen(name, sites, k, maxlate=3, **kw):
     return tlc_replay("MC_C11_" + name, "MC_C11", "C11",
                       dict(constants={"MaxEdits": k, "MaxLate": maxlate, "SiteIds": "<- " + sites},
                            invariants=["Emit", "WellFormedCfg"]),
-                      workers=8, trace_out=TRACE, replay_args=["--known", KNOWN], **kw)
+                      workers=8, trace_out=name + ".ndjson", replay_args=["--known", KNOWN], **kw)
 
 
 def stages(tier, seed):
@@ -164,10 +168,10 @@ def stages(tier, seed):
     ]
     tr = dict(kind=stage_c11_trace, cfg="Trace_C11", module="Trace_C11", shards=4, timeout=1200)
     if not big:
-        return model + [gen("c11_k2", "SitesC11", 2), tr]
-    # every replay stage rewrites the trace file: validate after each
-    return model + [gen("all_k2", "SitesEverything", 2, timeout=1500), dict(tr, cfg="Trace_C11"),
-                    gen("append_k3", "SitesAppend", 3, timeout=1500), dict(tr, cfg="Trace_C11")]
+        return model + [gen("c11_k2", "SitesC11", 2), gen("orders_k3", "SitesOrders", 3),
+                        dict(tr, trace_files=["c11_k2.ndjson", "orders_k3.ndjson"])]
+    return model + [gen("all_k2", "SitesEverything", 2, timeout=1500), gen("append_k3", "SitesAppend", 3, timeout=1500),
+                    dict(tr, shards=6, trace_files=["all_k2.ndjson", "append_k3.ndjson"])]
 
 
 PROPS = {"C11": dict(
@@ -190,8 +194,9 @@ PROPS = {"C11": dict(
         "PossibleTypes, IsPossibleType, root types), projected by abs.ViewOf; 'error iff invalid' is NOT asserted",
         "identical recorded observations are validated once; names starting with __ on user types are unspecified in the "
         "edition (the reference implementation only warned): counted, not asserted",
-        "bounded: one base schema plus <= 2 edits (quick: defect + placement sites; thorough: all sites, and <= 3 edits over "
-        "the placement/implementation sites with all 6 orders of 3 late types)",
+        "bounded: one base schema plus <= 2 edits (quick: defect + placement sites, plus <= 3 placement edits with all 6 "
+        "orders of 3 late types; thorough: all sites, and <= 3 edits over the placement / implementation / duplicate-name / "
+        "nil sites)",
     ])}
 
 MANIFEST_TEXT = {"C11": dict(
